@@ -1818,6 +1818,11 @@ class ApplyResult:
 
     def _set(self, i, obj):
         with self._mutex:
+            if self._event.is_set():
+                # Already resolved: a job has exactly one outcome.  Late or
+                # duplicate results (e.g. a result racing with a time limit)
+                # must not replace it or fire the callbacks again.
+                return
             if self._on_timeout_cancel:
                 self._on_timeout_cancel(self)
             self._success, self._value = obj
